@@ -617,11 +617,13 @@ func (p *Pipeline) Error(err string) {
 }
 
 func (p *Pipeline) finalize(event *Event, notifyInput bool, backEvent bool) {
+	verifTrace(vtFinal, p, verifID(event.stream), int64(event.SeqID), verifBool(notifyInput)+2*verifBool(backEvent), int64(event.kind))
 	if event.IsTimeoutKind() || event.IsChildKind() {
 		return
 	}
 
 	if notifyInput {
+		verifTrace(vtInputCommit, p, verifID(event.stream), int64(event.SeqID), event.Offset, int64(event.SourceID))
 		p.input.Commit(event)
 		p.outputEvents.Inc()
 		p.outputSize.Add(int64(event.Size))
